@@ -659,10 +659,16 @@ def run_doc(ctx):
             continue
         cov_lines = [x for g in got for x in g[1].split("\n")]
         cov_paths = [x for g in got for x in g[2]]
+        last_head = None
         for l, kd in zip(lines, kinds):
             tx = l.strip()
             if not tx or kd == "table":
                 continue
+            if kd == "head":
+                last_head = tx
+            elif last_head is not None and not any(tx in g[1].split("\n") and g[2] and g[2][-1] == last_head for g in got):
+                ctx.finding("doc:body-line-in-wrong-section", f"DOC body line {tx!r} is not in a unit of its own section "
+                            f"{last_head!r}", dict(rp, units=got, line=tx))
             if kd == "head" and tx not in cov_paths:
                 ctx.finding("doc:heading-without-body-in-no-unit", f"DOC heading {tx!r} without body text is in no unit "
                             "(no unit is emitted for an empty section and nothing below it carries the heading)",
@@ -727,11 +733,13 @@ def run_odt(ctx):
             continue
         cov_lines = [x for g in got for x in g[1].split("\n")]
         cov_paths = [x for g in got for x in g[2]]
+        last_head = None
         for p in paras:
             tx = p.text.strip()
             if not tx:
                 continue
             if p.outline_level is not None:
+                last_head = tx
                 if tx not in cov_paths:
                     ctx.finding("odt:heading-without-body-in-no-unit", f"ODT heading {tx!r} without body text is in no unit "
                                 "(no unit is emitted for an empty section and nothing below it carries the heading)",
@@ -740,6 +748,10 @@ def run_odt(ctx):
             st = p.style_name or ""
             if st.startswith("Table") or "Table_" in st:
                 continue  # table cell paragraphs: table content
+            if last_head is not None and tx in cov_lines and not any(
+                    tx in g[1].split("\n") and g[2] and g[2][-1] == last_head for g in got):
+                ctx.finding("odt:body-paragraph-in-wrong-section", f"ODT body paragraph {tx!r} is not in a unit of its own "
+                            f"section {last_head!r}", dict(rp, units=got))
             if tx not in cov_lines:
                 ctx.finding("odt:body-paragraph-in-no-unit", f"ODT body paragraph {tx!r} is in no unit", dict(rp, units=got))
     pre = ("From Coq Require Import ZArith List.\nFrom S2T Require Import Lib.PyStr C03.Lib C03.Docx C03.Sect C03.Corr.\n"
@@ -1000,7 +1012,7 @@ def run(ctx):
         "_BODY_TYPES/PPT_TEXT_TYPE_NOTES as Coq literals",
         "hand-written models (coq/C03/Model.v, Extract.v, Docx.v) of data_types.py iterate_units/get_full_text per format, "
         "ppt_extractor._parse_slide_list_container/_build_slides_from_text_blocks/_parse_ppt_document, rtf flush_page, "
-        "mbox _split_mbox_messages, DocxContent.iterate_units — tied by differential runs",
+        "mbox _split_mbox_messages, DocxContent/DocContent/OdtContent.iterate_units (Docx.v, Sect.v) — tied by differential runs",
         "oracles (recorded from the real code): ppt _decode_text/_clean_text, _parse_containers()['slides'], "
         "_extract_all_text_raw, rtf _RE_MULTI_SPACE/_RE_MULTI_NEWLINE, the `re` engine for MBOX_FROM_PATTERN and the DOCX "
         "heading regex, pypdf/openpyxl/xlrd page and cell reading",
@@ -1008,7 +1020,10 @@ def run(ctx):
     ctx.assumptions += ["CPython 3.12 str.strip()/str.join semantics as modelled in C03/Lib.v (validated differentially)",
                         "extractors store slide/chapter numbers as modelled (pptx enumerate, epub spine counter)"]
     gen_tables(ctx)
-    ctx.prove("C03/Props.v", ["C03/ProofsX.vo", "C03/ProofsM.vo"], expected=[
+    ctx.prove("C03/Props.v", ["C03/ProofsX.vo", "C03/ProofsM.vo", "C03/ProofsS.vo", "C03/ProofsD.vo"], expected=[
+        "C03_docx_sections_cover_partial", "C03_doc_numbers_strict", "C03_odt_numbers_strict", "C03_doc_body_lines_exact",
+        "C03_odt_body_lines_exact", "C03_doc_sections_cover_refuted", "C03_odt_sections_cover_refuted",
+        "C03_doc_sections_cover_partial", "C03_odt_sections_cover_partial",
         "C03_mbox_one_per_message",
         "C03_full_text_is_join", "C03_numbers_strict", "C03_numbers_never_repeat", "C03_numbers_are_positions",
         "C03_one_unit_per_source", "C03_units_partition_body_pdf", "C03_rtf_units_are_nonblank_pages",
@@ -1034,8 +1049,8 @@ META = {
                   "increasing, never repeating and equal to source positions; one unit per page/slide/sheet/chapter with unit k "
                   "holding source k's text; RTF units = non-blank pages; PPT document slides numbered 1..n incl. the raw fallback (after fixes/C03-ppt-raw-fallback-duplicate-slide.patch); refutations (with witnesses replayed on the code) for "
                   "PPT empty-slide dropping, RTF blank-page renumbering and DOCX section "
-                  "coverage, each with the partial theorem under the narrowest hypothesis.  DOC/ODT heading sections: "
-                  "validated on fixtures only.",
+                  "coverage, each with the partial theorem under the narrowest hypothesis.  DOC/ODT heading sections: numbering, exact "
+                  "body-line coverage, heading coverage refuted (empty sections) + partial; DOCX positive cover for clean documents.",
     "level_note": "Trusted: Coq kernel+VM; the hand-written models (validated differentially on every run); regex engine, "
                   "text decoding/cleaning, pypdf/openpyxl/xlrd as oracles.",
 }
